@@ -847,7 +847,8 @@ func (e Engine) runOnce(t *testing.T, ctx *kit.Ctx, sc *kit.Scenario[Config, Op]
 					// recorded for the history; a crash or a deadlock is what this operation can show
 					fwdSeq++
 					iname := append(mkName(o.Name), enc.NewStringComponent(enc.TypeGenericNameComponent, fmt.Sprintf("t%d-%d", ti, fwdSeq)))
-					icfg := &ndn.InterestConfig{Nonce: utils.IdPtr(uint64(5000 + fwdSeq)), Lifetime: utils.IdPtr(20 * time.Millisecond)}
+					// (a long lifetime - no real-time expiry inside a run: the schedule must not depend on how long the machine took)
+					icfg := &ndn.InterestConfig{Nonce: utils.IdPtr(uint64(5000 + fwdSeq)), Lifetime: utils.IdPtr(10 * time.Second)}
 					ei, err := spec.Spec{}.MakeInterest(iname, icfg, nil, nil)
 					if err != nil {
 						panic("harness: MakeInterest: " + err.Error())
